@@ -128,6 +128,11 @@ class Ctx:
                     b = min(lencontent, a + r.randint(0, maxc))
                     starts.append(a)
                     stops.append(b)
+        # a zero-length list may sit anywhere, also beyond the content: only lists with start != stop are range-checked
+        # by awkward_ListArray_validity, so this is a precondition-satisfying input
+        for i in range(len(starts)):
+            if starts[i] == stops[i] and r.random() < 0.2:
+                starts[i] = stops[i] = lencontent + r.randint(1, 5)
         return starts, stops, lencontent
 
     def shift_extreme(self, names, lists):
@@ -790,6 +795,8 @@ def _(g):
     for a, b in zip(off, off[1:]):
         c = b - a
         s = g.r.randint(0, lc - c)
+        if c == 0 and g.r.random() < 0.3:
+            s = lc + g.r.randint(1, 5)          # an empty list beyond the content is legal
         st.append(s)
         sp.append(s + c)
     if g.bad and n:
